@@ -28,6 +28,14 @@ Definition run_case (engine : bytes) (v : val) : val :=
                            :: (* C03: "no Range value, however large its numbers, makes serve fail" *)
                               (if is_some (r_range (i_req i)) && only_range (i_req i) && (is_get i || is_head i)
                                then [clause "C03" "range-value-makes-serve-fail"] else [])
+                           ++ (* C04: "it answers 412 exactly when ..., 304 exactly when ... and otherwise continues":
+                                 a request whose only headers are conditional ones gets no answer at all *)
+                              (if (is_get i || is_head i) && negb (only_range_ifrange (i_req i)) &&
+                                  negb (is_some (r_range (i_req i))) && negb (is_some (r_if_range (i_req i)))
+                               then [clause "C04" "conditional-request-gets-no-answer"] else [])
+                           ++ (* C14: a plain GET / HEAD is a 200 that must carry the validators *)
+                              (if (is_get i || is_head i) && only_range (i_req i) && negb (is_some (r_range (i_req i)))
+                               then [clause "C14" "plain-request-gets-no-response"] else [])
                        | _ => []
                        end
                    | Some o => spec_serve_all i o
